@@ -211,11 +211,13 @@ def gen_case(seeds, params, index):
                         'name': w.choice([None, None, 'f', 'g']),
                         'exclusive': w.random() < (0.4 if bias < 0.5 else 0.15),
                         'prebuilt': w.random() < 0.5})
-        elif r < 0.97:
+        elif r < 0.95:
             ops.append({'op': 'delfn', 'ctx': c, 'pick': w.randrange(1000),
                         'name': w.choice(['f', 'g', 'h'])})
         else:
-            ops.append({'op': 'reg_invalid', 'ctx': c})
+            ops.append({'op': 'reg_invalid', 'ctx': c,
+                        'name': w.choice([None, 'f', 'g']),
+                        'exclusive': w.random() < 0.6})
     return {'ops': ops}
 
 
@@ -371,7 +373,12 @@ def execute(case, stats):
             elif k == 'reg_invalid':
                 n = nodes[op['ctx']]
                 try:
-                    n.impl.register_function(bad)
+                    kw = {}
+                    if op.get('name'):
+                        kw['name'] = op['name']
+                    if op.get('exclusive'):
+                        kw['exclusive'] = True
+                    n.impl.register_function(bad, **kw)
                     fail('invalid-method-accepted', {}, step)
                 except Exception as e:
                     nfailed += 1
